@@ -25,23 +25,10 @@ def gen_case(rng, idx):
     w, h = rng.choice([(1, 1), (2, 1), (1, 2), (2, 2), (3, 2), (3, 3), (2, 4), (4, 4), (5, 3), (5, 5), (4, 1)])
     nres = 1 if mode == "unit" and rng.random() < 0.5 else rng.randint(1, 3)
     res = rng.sample([0, 1, 2, 3], nres)
-    capchoice = {"unit": [0, 1, 1, 2, 3], "general": [0, 2, 3, 4, 6, 8], "tight": [1, 2, 3]}[mode]
-    caps = [[r, rng.choice(capchoice)] for r in res]
     chips = [(x, y) for x in range(w) for y in range(h)]
     pdead = rng.choice([0, 0, 0.1, 0.25, 0.5, 1.0 if rng.random() < 0.1 else 0.1])
     dead = [c for c in chips if rng.random() < pdead]
     live = [c for c in chips if c not in dead]
-    exc = []
-    pexc = rng.choice([0, 0.15, 0.3, 0.6])
-    for c in chips:
-        if rng.random() < pexc:               # also on dead chips
-            exc.append([list(c), [[r, rng.choice(capchoice + [0, 5])] for r in res]])
-    rng.shuffle(exc)
-    dead_links = []
-    for c in live:
-        for l in range(6):
-            if rng.random() < 0.05:
-                dead_links.append([c[0], c[1], l])
     # vertices
     nv = rng.choice([0, 1, 2, 3, 4, 5, 6, 8, 10, 12, 15, 20])
     ids = rng.sample(range(0, 60), nv)
@@ -57,6 +44,33 @@ def gen_case(rng, idx):
             rq = [[r, rng.choice([0, 0, 1, 1, 1, 2, 3])] for r in res if rng.random() < 0.8]
         rng.shuffle(rq)
         vres.append([v, rq])
+    # global reservations first, so that capacities can be chosen around them
+    gres = []
+    for _ in range(rng.choice([0, 0, 0, 1, 1, 2])):
+        start = rng.choice([0, 0, 1, 2])
+        gres.append(["reserve", rng.choice(res), start, start + rng.choice([0, 1, 1, 2]), None])
+    G = dict((r, sum(k[3] - k[2] for k in gres if k[1] == r)) for r in res)
+    # capacities: around total demand / number of working chips, times a slack factor
+    slack = rng.choice([0.7, 1.0, 1.0, 1.3, 2.0, 4.0])
+    tot = dict((r, sum(q for _, rq in vres for rr, q in rq if rr == r)) for r in res)
+    per_chip = dict((r, int(slack * tot[r] / max(1, len(live)) + rng.choice([0, 0.5, 0.99, 1, 2]))) for r in res)
+    if rng.random() < 0.8:                    # room for the largest vertex / a merged pair
+        big = rng.choice([1, 1, 2])
+        per_chip = dict((r, max(per_chip[r], big * max([q for _, rq in vres for rr, q in rq if rr == r] + [0])))
+                        for r in res)
+    caps = [[r, G[r] + per_chip[r] if rng.random() < 0.92 else rng.choice([0, 1, 2])] for r in res]
+    exc = []
+    pexc = rng.choice([0, 0.15, 0.3, 0.6])
+    for c in chips:
+        if rng.random() < pexc:               # also on dead chips
+            exc.append([list(c), [[r, (G[r] if rng.random() < 0.9 else 0) + rng.choice([0, 1, 2, per_chip[r], per_chip[r] + 2])]
+                                  for r in res]])
+    rng.shuffle(exc)
+    dead_links = []
+    for c in live:
+        for l in range(6):
+            if rng.random() < 0.05:
+                dead_links.append([c[0], c[1], l])
     # nets
     nets = []
     if ids:
@@ -111,18 +125,19 @@ def gen_case(rng, idx):
         cons.append(["loc", v, list(group_loc[g])])
         if rng.random() < 0.15:               # a repeated identical constraint
             cons.append(["loc", v, list(group_loc[g])])
-    # reservations
+    # reservations: the global ones chosen above, and per-chip ones (mostly within what the chip has)
+    cons += gres
+    excd = dict((tuple(xy), dict((r, q) for r, q in rs)) for xy, rs in exc)
     for _ in range(rng.choice([0, 0, 1, 1, 2, 3])):
         r = rng.choice(res)
-        start = rng.choice([0, 0, 1, 2])
-        size = rng.choice([0, 1, 1, 1, 2, 3 if mode == "general" else 1])
-        if rng.random() < 0.5:
-            loc = None
-        elif exc and rng.random() < 0.5:
-            loc = list(rng.choice(exc)[0])
+        if exc and rng.random() < 0.5:
+            loc = tuple(rng.choice(exc)[0])
         else:
-            loc = list(rng.choice(live)) if live and rng.random() < 0.93 else list(rng.choice(chips))
-        cons.append(["reserve", r, start, start + size, loc])
+            loc = rng.choice(live) if live and rng.random() < 0.93 else rng.choice(chips)
+        room = excd.get(loc, dict((rr, q) for rr, q in caps))[r] - G[r]
+        start = rng.choice([0, 0, 1, 2])
+        size = rng.choice([0, 1, 1, 2]) if rng.random() < 0.15 else rng.randint(0, max(0, min(2, room)))
+        cons.append(["reserve", r, start, start + size, list(loc)])
     if rng.random() < 0.15:
         cons.append(["align", rng.choice(res), rng.choice([1, 2, 4])])
     if rng.random() < 0.15 and ids:
@@ -440,7 +455,7 @@ def run(chk, args):
         cases = [f["replay"]["case"] for f in rp.get("failures", []) + rp.get("no_longer_checks", [])
                  if "case" in f.get("replay", {})]
     else:
-        n = 600 if chk.tier == "quick" else 12000
+        n = 1000 if chk.tier == "quick" else 20000
         cases = [gen_case(chk.rng, i) for i in range(n)]
         corpus = os.path.join(lib.VERIF, "corpus", "C02.json")
         if os.path.exists(corpus):
